@@ -11,6 +11,8 @@ MANIFEST_ENTRY = {
     "note": "CBOR encoding/decoding, klein routing, treq, werkzeug's Range/Content-Range formatting and parsing are trusted libraries (stubbed). HTTPServer.write_share_data's Content-Range handling and completion detection, share listing and lease addition over HTTP are not under contract here (the storage-server side of them is C22-C25, the request authorisation C30). 'Same server state' follows because the HTTP server calls the same StorageServer methods; it is not separately proved.",
     "technique": "contract-based deductive verification (pyvc VCs + z3) of the marshalling functions with library stubs",
 }
+MANIFEST_ENTRY["text"] += ' Bounded end-to-end stand-in (run-time contract, never counted as proved): contracts/grid_http.py replays seeded operation histories on twin real StorageServers, one called directly and one through the real HTTP client and HTTPServer resource in memory, comparing every result and the logical server state, interleaved with requests that must be refused (wrong swissnum, wrong or missing secrets) and must change nothing.'
+MANIFEST_ENTRY["technique"] += "; plus bounded end-to-end run-time scenario contracts on an in-process grid of the real components (stand-in, labelled bounded)"
 EXPLANATION = "The HTTP layer passes ranges and vectors to/from the storage server unchanged."
 TRUSTED = ["werkzeug Range/ContentRange, cbor2, klein, treq"]
 ASSUMPTIONS = []
